@@ -4,7 +4,9 @@
 //! logical / physical models the TLA+ specifications talk about, (b) generates
 //! and re-lays-out input arrays, (c) writes ndjson traces for TLC.
 
+pub mod big;
 pub mod dump;
+pub mod key;
 pub mod mk;
 pub mod mutate;
 pub mod rng;
